@@ -3,6 +3,7 @@ package props
 import (
 	"fmt"
 	"go/ast"
+	"go/token"
 	"go/types"
 	"strings"
 
@@ -276,6 +277,8 @@ func runC17(c *core.Ctx) {
 		runRetentionCutoff(c)
 		runMapShardsAccounting(c)
 	})
+
+	c.Clause("D7", func() { runGroupDeletedWithLastShard(c) })
 }
 
 // errPropagatedOrFlag: the error of MetaClient.DeleteShardGroup must be examined (the pass continues with the next group).
@@ -284,4 +287,132 @@ func errPropagatedOrFlag(c *core.Ctx, f *core.FuncInfo, m func(*ast.CallExpr) bo
 		ok, detail := errUsed(f, e)
 		c.Check("error-examined", fmt.Sprintf("%s/DeleteShardGroup#%d", f.Name, i+1), c.P.Pos(e.Pos()), ok, detail)
 	}
+}
+
+// runGroupDeletedWithLastShard (C17, C06): a shard group is marked deleted (DeletedAt set) by the functions that remove
+// a shard from it exactly when the shard removed was its last one. The length test that guards the mark is either the
+// length of the list as it was before the removal compared with 1, or the length after the removal compared with 0.
+// A test that mixes the two marks a group that still has a live shard as deleted (retention then removes that shard's
+// data on its owners) or leaves an empty group unmarked.
+func runGroupDeletedWithLastShard(c *core.Ctx) {
+	n := 0
+	for _, g := range c.P.FuncsIn(metap) {
+		if g.Decl == nil || g.Decl.Recv == nil || g.Body == nil || g.Lit != nil {
+			continue
+		}
+		info := g.Info()
+		// removal assignments: <lhs>.Shards = append(Y[:i], Y[i+1:]...)
+		type removal struct {
+			as  *ast.AssignStmt
+			lhs ast.Expr
+			y   ast.Expr
+		}
+		var rems []removal
+		ast.Inspect(g.Body, func(nd ast.Node) bool {
+			as, ok := nd.(*ast.AssignStmt)
+			if !ok || len(as.Lhs) != 1 || len(as.Rhs) != 1 {
+				return true
+			}
+			se, ok := ast.Unparen(as.Lhs[0]).(*ast.SelectorExpr)
+			if !ok || se.Sel.Name != "Shards" {
+				return true
+			}
+			ce, ok := ast.Unparen(as.Rhs[0]).(*ast.CallExpr)
+			if !ok || len(ce.Args) != 2 || !ce.Ellipsis.IsValid() {
+				return true
+			}
+			if b, ok := core.Callee(info, ce).(*types.Builtin); !ok || b.Name() != "append" {
+				return true
+			}
+			s1, ok1 := ast.Unparen(ce.Args[0]).(*ast.SliceExpr)
+			s2, ok2 := ast.Unparen(ce.Args[1]).(*ast.SliceExpr)
+			if !ok1 || !ok2 || core.ExprStr(s1.X) != core.ExprStr(s2.X) {
+				return true
+			}
+			rems = append(rems, removal{as, as.Lhs[0], s1.X})
+			return true
+		})
+		if len(rems) == 0 {
+			continue
+		}
+		// marks: <x>.DeletedAt = ... guarded by len(Z) == K
+		var stack []ast.Node
+		ast.Inspect(g.Body, func(nd ast.Node) bool {
+			if nd == nil {
+				stack = stack[:len(stack)-1]
+				return true
+			}
+			stack = append(stack, nd)
+			as, ok := nd.(*ast.AssignStmt)
+			if !ok || len(as.Lhs) != 1 {
+				return true
+			}
+			se, ok := ast.Unparen(as.Lhs[0]).(*ast.SelectorExpr)
+			if !ok || se.Sel.Name != "DeletedAt" {
+				return true
+			}
+			// the removal in front of this mark
+			var rem *removal
+			for i := range rems {
+				if rems[i].as.Pos() < as.Pos() {
+					rem = &rems[i]
+				}
+			}
+			if rem == nil {
+				return true
+			}
+			n++
+			key := fmt.Sprintf("%s/mark@%s", g.Name, core.ExprStr(se.X))
+			if len(key) > 160 {
+				key = fmt.Sprintf("%s/mark#%d", g.Name, n)
+			}
+			var guard *ast.BinaryExpr
+			for k := len(stack) - 2; k >= 0 && guard == nil; k-- {
+				if ifs, ok := stack[k].(*ast.IfStmt); ok {
+					if be, ok := ast.Unparen(ifs.Cond).(*ast.BinaryExpr); ok && be.Op == token.EQL {
+						if ce, ok := ast.Unparen(be.X).(*ast.CallExpr); ok && isLenCall(info, ce) {
+							guard = be
+						}
+					}
+				}
+			}
+			if guard == nil {
+				c.Check("group-deleted-with-last-shard", key, c.P.Pos(as.Pos()), false, "undecided: the mark is not guarded by a test `len(<list>) == <constant>`")
+				return true
+			}
+			z := ast.Unparen(guard.X).(*ast.CallExpr).Args[0]
+			kv, okK := int64(-1), false
+			if tv := info.Types[guard.Y]; tv.Value != nil {
+				kv, okK = constInt(tv.Value)
+			}
+			pre := false
+			post := false
+			if zid, ok := ast.Unparen(z).(*ast.Ident); ok {
+				if yid, ok := ast.Unparen(rem.y).(*ast.Ident); ok && info.ObjectOf(zid) == info.ObjectOf(yid) {
+					// the local that held the list before the removal; the removal assigns a field, not this local
+					if lid, isLocalTarget := ast.Unparen(rem.lhs).(*ast.Ident); !isLocalTarget || info.ObjectOf(lid) != info.ObjectOf(zid) {
+						pre = true
+					}
+				}
+			}
+			if !pre && core.ExprStr(z) == core.ExprStr(rem.lhs) {
+				post = true
+			}
+			good := okK && ((pre && kv == 1) || (post && kv == 0))
+			detail := ""
+			if !good {
+				switch {
+				case !okK || (!pre && !post):
+					detail = "undecided: cannot tell whether `" + core.ExprStr(guard) + "` measures the shard list before or after the removal"
+				case post:
+					detail = "`" + core.ExprStr(guard) + "` measures the shard list AFTER the removal: the group is marked deleted while one shard is left (retention then deletes that shard's data on its owners), and a group that lost its only shard is not marked"
+				default:
+					detail = "`" + core.ExprStr(guard) + "` measures the shard list BEFORE the removal and must compare with 1"
+				}
+			}
+			c.Check("group-deleted-with-last-shard", key, c.P.Pos(guard.Pos()), good, detail)
+			return true
+		})
+	}
+	c.Floor("shard removals that may mark their group deleted", n, 2)
 }
